@@ -224,6 +224,9 @@ def evoWash (a : EvoWashArgs) : Except Err EvoWashFields := do
     | .int n => do let v ← intToTip n; pure (v : Int)
     | .member v => pure v
     | .bad => throw .reject
+  -- distinct concrete tips
+  if tipVals.contains (-1) then throw .valueErr
+  if (dedup (tipVals.map Int.toNat)).length ≠ tipVals.length then throw .valueErr
   let wg ← intIn a.wasteGrid 1 Spec.maxGrid
   let ws ← intIn a.wasteSite 1 Spec.maxSite
   let cg ← intIn a.cleanerGrid 1 Spec.maxGrid
